@@ -75,9 +75,17 @@ def MH.step (inv : Nat → Array α → Array α) (h : MH α) : MOp α → Excep
   | .binop op k rhs inplace =>
     match h.view k, h.rhs rhs with
     | some A, some o =>
-      match A.binop op.fn o with
-      | .error e => .error e
-      | .ok R => .ok (if inplace then h.writeBuf k R else h.alloc R)
+      if inplace then
+        -- `a op= b` with a length-1 `a` and a longer `b`: numpy refuses ("non-broadcastable output operand")
+        if A.length = 1 ∧ 1 < o.len A.rank then .error .valueError
+        else match A.binop op.fn o with
+          | .error e => .error e
+          | .ok R => .ok (h.writeBuf k R)
+      else
+        -- out of place a length-1 left operand is broadcast over the right operand's grid
+        match (A.stretch (o.len A.rank)).binop op.fn o with
+        | .error e => .error e
+        | .ok R => .ok (h.alloc R)
     | _, _ => .error .shape
   | .dot k1 k2 inplace =>
     match h.view k1, h.view k2 with
